@@ -272,14 +272,15 @@ def string_to_bytes_family():
     foreign = ['X', 'ki', 'Ki', 'K', 'k', 'mi', 'KI', 'iK', 'Kii']
     all_prefixes = sorted(set(ADMITTED['IEC'] + ADMITTED['SI']
                               + ADMITTED['mixed'] + foreign))
-    for system in ['IEC', 'SI', 'mixed', 'iec']:
+    for system in ['IEC', 'SI', 'mixed', 'iec', '', None, 'IEC ', 0]:
         for sign in ['', '+', '-']:
             for mag in mags + bad_mags:
                 for prefix in [''] + all_prefixes:
                     for unit in ['b', 'bit', 'B', 'bits', 'Bit', '']:
                         for ri in (False, True):
                             text = sign + mag + prefix + unit
-                            ok = (system in ADMITTED and mag in mags
+                            ok = (isinstance(system, str)
+                                  and system in ADMITTED and mag in mags
                                   and (prefix == ''
                                        or prefix in ADMITTED[system])
                                   and unit in UNITS)
